@@ -26,6 +26,9 @@ ASSUMPTIONS = [
     'a policy returning a generator (not a list) is outside the stated quantifier (later policies are then skipped for its outputs); noted, not judged',
     'two test-only policies stand for "a policy returning its input among its outputs": ReturnSelf (returns [envelope]) and KeepSplit '
     '(keeps the first recipient in the input envelope and returns it with copies for the others)',
+    'concurrency is not in the Gallina model (the model is sequential; C16_policies_stateless covers sequences of messages): the concurrent '
+    'stream is judged by the implementation-side oracle only, with yielding test policies (GatePolicy / YieldPolicy) standing for a policy '
+    'that does I/O; store.write through gevent.spawn + join as in Queue._pool_imap',
 ]
 
 
@@ -1047,7 +1050,17 @@ def run(ctx):
         'the split policies.  Oracle c16:received-not-first: when the last prepending policy of the chain is AddReceivedHeader the first '
         'field of every written envelope, in envelope.headers and in the flatten()ed bytes, is this hop\'s Received field and the original '
         'fields follow in their order.  '
-        'non-trivial = more than one recipient and a non-empty chain (Forward.apply stream: some rule matches)')
+        'STATE ACROSS MESSAGES: one Queue / the same policy objects handling 2-4 messages one after the other (the same multi-domain '
+        'recipient list again and again, different lists, A B A, other headers; a split policy followed by Forward - incl. a rule whose '
+        'output still matches it - / header policies, and random chains), compared with the model (c16_msgs) and judged: every message is '
+        'written as a NEW chain writes it alone (c16:policy-state-leaks-between-messages), nothing written earlier changes later, no '
+        'object shared between any two envelopes of the sequence (identity + mutation probe).  CONCURRENCY: two enqueue calls in progress '
+        'at once on one Queue with a test-only yielding policy (parks at a harness gate) at the first / a middle / the last position '
+        'of chains with the split policies and Forward: EVERY interleaving at the gates (<= 252 per case); three messages: up to 60 '
+        'interleavings per case; three greenlets with gevent.sleep(0) policies under gevent\'s own scheduling; oracle per message: what '
+        'its enqueue call returned / wrote = what it is written as alone (c16:concurrent-enqueue-mixes-messages).  '
+        'non-trivial = more than one recipient and a non-empty chain (Forward.apply stream: some rule matches; sequences: > 1 message; '
+        'concurrent: at least one scheduling choice)')
     _reported.clear()
     run_domains(ctx)
     run_forward(ctx)
@@ -1084,12 +1097,80 @@ def run(ctx):
                                  'str.lower on domains modelled as ASCII lower-casing']
 
 
+def replay_messages(ctx, c, chain, msgs):
+    """replay of a state-across-messages sequence or of one interleaving of concurrent enqueue calls"""
+    def show(obs):
+        return [(x[1], list(x[2]), [h[0] for h in x[3]], x[4], 'input-object' if x[0][0] else 'copy') for x in obs]
+    print('chain:', chain)
+    for k, rs in chain:
+        if k == 'forward':
+            print('  forward rules:', [(pat, getattr(repl, '__name__', repl), count) for pat, repl, count in RULESETS[rs]])
+    want = [alone(chain, m) for m in msgs]
+    if c['mode'] == 'sequence':
+        print('ONE Queue, the same policy objects, %d messages one after the other' % len(msgs))
+        store = RecordingStore()
+        q = Queue(store)
+        for p in build_policies(chain):
+            q.add_policy(p)
+        allw = []
+        for k, m in enumerate(msgs):
+            env, orig = make_input(m)
+            n0 = len(store.written)
+            print('message %d: sender %r recipients %r' % (k, m['sender'], m['rcpts']))
+            try:
+                q.enqueue(env)
+            except Exception as ex:
+                print('  Queue.enqueue RAISED %s(%s)' % (type(ex).__name__, ex))
+                break
+            got = [envelope_obs(e, orig) for e in store.written[n0:]]
+            print('  written          :', show(got))
+            print('  alone (new chain):', show(want[k]), '' if got == want[k] else '   <-- DIFFERENT')
+            allw = list(store.written)
+            print('  recipients of everything written so far:', [e.recipients for e in allw])
+        sh = shared_objects(allw)
+        if sh:
+            print('envelopes (index over all written) that are / share an object:', sh)
+    else:
+        sched = c['schedule']
+        print('ONE Queue, %d enqueue calls in progress at once; choices at the points where more than one can go on: %r' % (len(msgs), sched))
+        if sched == 'gevent':
+            store = RecordingStore()
+            q = Queue(store)
+            for p in build_policies(chain):
+                q.add_policy(p)
+            inputs = [make_input(m) for m in msgs]
+            gl = [gevent.spawn(guarded_enqueue, q, env) for env, _ in inputs]
+            gevent.joinall(gl, timeout=5)
+            res = [g.value for g in gl]
+        else:
+            res, branch, store, inputs = run_schedule(chain, msgs, list(sched))
+        for k, m in enumerate(msgs):
+            print('message %d: sender %r recipients %r' % (k, m['sender'], m['rcpts']))
+            if res is None or res[k] is None:
+                print('  did not finish')
+            elif res[k][0] == 'raised':
+                print('  Queue.enqueue RAISED %s(%s)' % (type(res[k][1]).__name__, res[k][1]))
+            else:
+                got = [envelope_obs(e, inputs[k][1]) for e, _ in res[k][1]]
+                print('  its enqueue wrote :', show(got))
+                print('  alone            :', show(want[k]), '' if got == want[k] else '   <-- DIFFERENT')
+        print('store.write calls in order:', [(e.sender, e.recipients) for e in store.written])
+    if ctx.model:
+        allr = [r for m in msgs for r in m['rcpts']]
+        o = ctx.model.call('c16_msgs', [model_chain(chain), subn_table(chain, allr),
+                                        [[m['sender'], list(m['rcpts']), [[h[0], h[1]] for h in m['headers']], m['body']] for m in msgs]])
+        print('model (messages one after the other):', [(f, show(ob)) for f, ob in msgs_model_obs(o)])
+    return 0
+
+
 def replay(ctx, case):
     c = case.get('case', case)
 
     def unhex(x):
         return bytes.fromhex(x['hex']) if isinstance(x, dict) else x
     chain = [(k, rs) for k, rs in c['chain']]
+    if c.get('mode') in ('sequence', 'concurrent'):
+        return replay_messages(ctx, c, chain, [dict(m, body=unhex(m['body'])) for m in c['messages']])
     headers = [tuple(h) for h in c['headers']]
     body = unhex(c['body'])
     env = build_envelope(c['sender'], c['rcpts'], headers, body)
